@@ -14,7 +14,9 @@ package internalsrv
 //@ extern (github.com/tmpim/casket/caskethttp/httpserver.Path).Matches
 //@   pure
 //@ func isInternalRedirect
+//@ // drops three fields of the response header (proved with this frame in unit helper_frames)
 //@ func (internalResponseWriter).ClearHeader
+//@   modifies MV:map[string][]string, MD:map[string][]string
 //@ extern invoke:(net/http.ResponseWriter).Header
 //@   ensures result != nil
 
@@ -22,7 +24,7 @@ package internalsrv
 
 //@ func (Internal).ServeHTTP
 //@   requires r != nil && r.URL != nil && i.Next != nil
-//@   modifies URL.Path, ghost:nextCalls
+//@   modifies URL.Path, ghost:nextCalls, MV:map[string][]string, MD:map[string][]string
 //@   ensures [protected_not_served] exists(k, 0, len(i.Paths), protected(k)) ==> (result0 == 404 && result1 == nil && nextCalls == old(nextCalls))
 //@   ensures [bounded_redirects] nextCalls <= old(nextCalls) + 11
 //@   loop 1 invariant 0 <= #i && #i <= len(i.Paths) && nextCalls == old(nextCalls) && r.URL == old(r.URL) && r.URL.Path == old(r.URL.Path)
@@ -37,7 +39,12 @@ package internalsrv
 //@ use @verif/specs/stdlib.spec:stdlib
 //@ use @verif/specs/stdlib.spec:casket_api
 
-//@ unit helper_frames frames=on props=C11 nilchecks=on filter=`internalsrv\.isInternalRedirect$`
+//@ unit helper_frames frames=on props=C11,C03 nilchecks=on filter=`internalsrv\.isInternalRedirect$|internalsrv\.internalResponseWriter\)\.ClearHeader$`
+//@ extern (net/http.Header).Del
+//@   modifies MV:map[string][]string, MD:map[string][]string
+//@ func (internalResponseWriter).ClearHeader
+//@   requires w.ResponseWriter != nil
+//@   modifies MV:map[string][]string, MD:map[string][]string
 //@ // helpers that other units call through an empty contract ("frame-empty, promises nothing"): here each is verified
 //@ // against exactly that contract (safety and an empty frame), so that assumption is a proved fact
 //@ use @verif/specs/stdlib.spec:stdlib
